@@ -41,6 +41,7 @@ func cmdVerify(args []string) int {
 	fs := flag.NewFlagSet("verify", flag.ExitOnError)
 	repo := fs.String("repo", "/repo", "repository root")
 	funcs := fs.String("f", "", "comma-separated function keys or prefixes (default: all contracts)")
+	exact := fs.Bool("x", false, "match -f keys exactly (no prefix matching)")
 	verbose := fs.Bool("v", false, "verbose")
 	unroll := fs.Int("unroll", 2, "unrolling bound for loops without invariants")
 	budget := fs.Float64("t", 10, "per-query budget (s)")
@@ -71,7 +72,7 @@ func cmdVerify(args []string) int {
 		if *funcs != "" {
 			ok := false
 			for _, f := range strings.Split(*funcs, ",") {
-				if k == f || (strings.HasPrefix(k, f) && prog.Contracts[k] != nil) || (strings.HasSuffix(f, "*") && strings.HasPrefix(k, strings.TrimSuffix(f, "*"))) {
+				if k == f || (!*exact && strings.HasPrefix(k, f) && prog.Contracts[k] != nil) || (strings.HasSuffix(f, "*") && strings.HasPrefix(k, strings.TrimSuffix(f, "*"))) {
 					ok = true
 				}
 			}
@@ -88,7 +89,7 @@ func cmdVerify(args []string) int {
 		if *funcs != "" {
 			ok := false
 			for _, f := range strings.Split(*funcs, ",") {
-				if k == f || strings.HasPrefix(k, f) {
+				if k == f || (!*exact && strings.HasPrefix(k, f)) {
 					ok = true
 				}
 			}
